@@ -108,6 +108,7 @@ def generate(tier, seed):
                  mul(add(YI_, num(1)), sub(num(2), XI_)), sub(sub(YI_, num(1)), mul(num(3), ineg(XI_)))]
     for tpos in positions:
         shapes = [atom('q', tpos), atom('p', YI_, tpos), atom('t', YI_, gvar('X'), tpos), atom('t', tpos, YI_, svar('X')),
+                  atom('t', XI_, tpos, add(XI_, num(1))), atom('p', tpos, tpos), cmp(XI_, '<', tpos, '<=', XI_, '!=', tpos),
                   cmp(tpos, '<', YI_), cmp(YI_, '<=', tpos), cmp(YI_, '<', num(1), '<', tpos), cmp(YI_, '<', tpos, '<', num(9), '!=', gvar('X')),
                   cmp(num(0), '<=', YI_, '<', num(7), '<=', gvar('Y'), '!=', tpos)]
         for f0 in shapes:
